@@ -445,6 +445,9 @@ func (ck *Checker) writeEvidence(violations int, rule string, extra map[string]a
 	}
 	b, _ := json.MarshalIndent(ev, "", " ")
 	dir := filepath.Join(verifRoot(), "evidence")
+	if v := os.Getenv("VERIF_EVIDENCE_DIR"); v != "" {
+		dir = v // used when the check is pointed at a scratch tree (mutants), so real evidence is not overwritten
+	}
 	os.MkdirAll(dir, 0o755)
 	return os.WriteFile(filepath.Join(dir, ck.prop+".json"), b, 0o644)
 }
